@@ -139,6 +139,9 @@ def expected(case):
         n = case["n"]
         lon = [SITE_LON[i] for i in range(n)]
         lat = [SITE_LAT[i] for i in range(n)]
+        if case.get("dup"):  # co-located stations: two sites at one position (n=2); one more on the same latitude (n=3)
+            lon = [SITE_LON[i] for i in ([0, 0] if n == 2 else [0, 1, 1])]
+            lat = [SITE_LAT[0]] * n
         npos = n
         glat = glon = None
     elif kind == "grid":
@@ -237,6 +240,8 @@ def roundtrip(case, opts, ds, tmpdir):
     if fmt == "swan":
         p = os.path.join(tmpdir, "s.spec" + (".gz" if opts["gz"] else ""))
         ds.spec.to_swan(p, ntime=opts["ntime"])
+        if opts.get("as_site") == "default":  # several stations read without as_site: still stations (they do not fill a lat x lon mesh)
+            return ws.read_swan(p).load()
         return ws.read_swan(p, as_site=case["layout"] == "site").load()
     if fmt == "octopus":
         p = os.path.join(tmpdir, "o.oct" + (".gz" if opts["gz"] else ""))
@@ -273,7 +278,7 @@ def roundtrip(case, opts, ds, tmpdir):
 def layout_pred(case):
     k = case["layout"]
     if k == "site":
-        return "station"
+        return "station" + (",co-located" if case.get("dup") else "")
     if k == "grid":
         nlat, nlon = case["n"]
         s = "grid,nlat>1,nlon>1" if (nlat > 1 and nlon > 1) else "grid,single-row-or-column"
@@ -539,6 +544,8 @@ def opt_pred(case, opts):
         p.append(ntime_rel(case, opts))
     if opts.get("packed"):
         p.append("compress=False,packed=True")
+    if opts.get("as_site") == "default":
+        p.append("as_site-omitted")
     if opts.get("reader") == "read_wavespectra":
         p.append("read_wavespectra")
     return ",".join(p) if p else "default-options"
@@ -709,8 +716,10 @@ def datasets(tier, seed):
                                 d = dict(layout=kind, n=n, nt=nt, nf=nf, nd=nd, dirorder=order, off=off, extras=extras,
                                          dtype="float64", seed=seed)
                                 out.append(d)
-                                if kind == "grid" and not quick and n[0] > 1:
+                                if kind == "grid" and n[0] > 1 and (not quick or (nf == 2 and nd == 4 and not extras)):
                                     out.append(dict(d, latdesc=True))
+                                if kind == "site" and n in (2, 3) and (not quick or (nf == 2 and nd == 4 and not extras)):
+                                    out.append(dict(d, dup=True))
             # float32 data: a smaller complete sub-product
             if nt == 2 or not quick:
                 for nd in ((4,) if quick else (4, 6)):
@@ -805,7 +814,10 @@ def run_item(item):
     fmt = case["fmt"]
     exp = expected(case)
     nontrivial = any(c not in ("zero", "nan") for c in exp["classes"])
-    for opts in option_sets(fmt, tier):
+    optl = list(option_sets(fmt, tier))
+    if fmt == "swan" and case["layout"] == "site" and case["n"] >= 2:
+        optl.append(dict(gz=False, ntime=None, as_site="default"))
+    for opts in optl:
         vs = run_case(case, opts)
         res["evals"] += 1
         if nontrivial:
@@ -828,7 +840,7 @@ def run(rep, tier, seed, parts=None):
         "every shape; thorough: all 6 offsets) x {without, with wspd/wdir/dpt} plus a float32 sub-product (quick: 2 times, nf 2, nd 4, "
         "sorted; thorough: full). Every spectrum of a dataset differs from every other one in every bin, so a permutation of positions, "
         "times, frequencies or directions is visible. Each dataset goes through every in-scope pair under every option: SWAN ASCII "
-        "(plain/.gz x ntime None/1/2; read as_site for stations), JSON, wavespectra netCDF-3 (unpacked/packed x read_netcdf/"
+        "(plain/.gz x ntime None/1/2; read as_site for stations, and without as_site for >= 2 stations incl. co-located ones), JSON, wavespectra netCDF-3 (unpacked/packed x read_netcdf/"
         "read_wavespectra), WW3 netCDF-3 (stations), Octopus (one site as a station or a 1x1 grid, whole-degree directions; thorough: the "
         "full product above x plain/.gz x ntime None/1/2; quick, because one file costs 0.4 s: (nf,nd) in {(2,4),(3,6)}, options "
         "{plain x ntime None/1/2, .gz}), Funwave (one spectrum, clip=False: bare (freq,dir) and time=1 x site=1 datasets x nf x nd x order "
